@@ -1,0 +1,14 @@
+//go:build verif
+// +build verif
+
+package prometheus
+
+import "github.com/prometheus/client_golang/prometheus"
+
+// ResetRegistryForSim gives the package a fresh, private registry, so that every simulated run
+// starts with no metric vector registered (the default registry is process-wide).
+func ResetRegistryForSim() {
+	r := prometheus.NewRegistry()
+	registerer = r
+	gather = r
+}
